@@ -45,7 +45,7 @@ func (p verifProbe) Call(i *Interpreter, args []interface{}) (interface{}, error
 	return vpVals[p.k][j], nil
 }
 
-func (p verifProbe) Arity() int      { return 0 }
+func (p verifProbe) Arity() int     { return 0 }
 func (p verifProbe) String() string { return "<probe>" }
 
 // vpReset prepares the probe tables: limit outcomes per probe, values drawn by mode:
